@@ -855,6 +855,7 @@ Qed.
 Section WrapperProofs.
   Variable S N : Type.
   Variable next : S -> istep S N.
+  Variable eqb : N -> N -> bool.
 
   (* the iterator, started in s, produces exactly l and then ends (false) or panics (true) *)
   Inductive yields : S -> list N -> bool -> Prop :=
@@ -862,9 +863,15 @@ Section WrapperProofs.
   | y_panic s : next s = IPanic -> yields s [] true
   | y_next s n s' l b : next s = INext n s' -> yields s' l b -> yields s (n :: l) b.
 
-  Lemma match_all_loop_yields s l b :
+  (* the iterator of a query that is not a node-set query and whose value is true: it yields the
+     context node, again and again, for ever (some invariant P is preserved by every step) *)
+  Definition loops_on (self : N) (s : S) : Prop :=
+    exists P : S -> Prop, P s /\ forall s0, P s0 -> exists s1, next s0 = INext self s1 /\ P s1.
+
+  (* -- the loop before fix 3036423 -- *)
+  Lemma old_loop_yields s l b :
     yields s l b -> forall fuel acc, length l < fuel ->
-    match_all_loop next fuel s acc = if b then WErr EQueryFailed else WOk (rev acc ++ l).
+    match_all_loop_old next fuel s acc = if b then WErr EQueryFailed else WOk (rev acc ++ l).
   Proof.
     induction 1 as [s H|s H|s n s' l b H Hy IH]; intros fuel acc Hf;
       (destruct fuel as [|f]; [simpl in Hf; lia|]); simpl; rewrite H.
@@ -874,8 +881,8 @@ Section WrapperProofs.
       simpl. rewrite <- app_assoc. reflexivity.
   Qed.
 
-  Lemma match_all_loop_ok_inv fuel : forall s acc r,
-    match_all_loop next fuel s acc = WOk r -> exists l, yields s l false /\ r = rev acc ++ l.
+  Lemma old_loop_ok_inv fuel : forall s acc r,
+    match_all_loop_old next fuel s acc = WOk r -> exists l, yields s l false /\ r = rev acc ++ l.
   Proof.
     induction fuel as [|f IH]; intros s acc r H; simpl in H; [discriminate|].
     destruct (next s) as [n s'| |] eqn:E; try discriminate.
@@ -884,21 +891,112 @@ Section WrapperProofs.
     - inversion H; subst. exists []. split; [constructor; assumption|]. rewrite app_nil_r; reflexivity.
   Qed.
 
-  (* MatchAll returns the engine's iteration, every node, in that order, nothing removed, nothing
-     merged - and only that. *)
-  Theorem match_all_is_the_iteration self s l :
-    (exists fuel, match_all next false self (Some s) fuel = WOk l) <-> yields s l false.
+  (* N11: on such an iterator the old MatchAll never returns, whatever the fuel *)
+  Lemma old_loop_never_returns self s :
+    loops_on self s -> forall fuel acc, match_all_loop_old next fuel s acc = WOutOfFuel.
   Proof.
-    unfold match_all. split.
-    - intros [fuel H]. apply match_all_loop_ok_inv in H as (l' & Hy & ->). exact Hy.
-    - intros Hy. exists (Datatypes.S (length l)).
-      rewrite (match_all_loop_yields _ _ _ Hy) by lia. reflexivity.
+    intros (P & Hs & Hstep) fuel. revert s Hs.
+    induction fuel as [|f IH]; intros s Hs acc; simpl; [reflexivity|].
+    destruct (Hstep s Hs) as (s1 & -> & H1). apply IH; assumption.
   Qed.
 
-  Lemma match_all_enough_fuel self s l b fuel :
+  (* -- the repaired loop -- *)
+  (* for a node-set query the probe changes nothing: the repaired loop is the old loop *)
+  Lemma loop_node_set fuel : forall self s acc probed,
+    match_all_loop next eqb true fuel self s acc probed = match_all_loop_old next fuel s acc.
+  Proof.
+    induction fuel as [|f IH]; intros self s acc probed; simpl; [reflexivity|].
+    destruct (next s) as [cur s'| |]; try reflexivity.
+    destruct (negb probed && eqb cur self && match acc with last :: _ => eqb last self | [] => false end);
+      apply IH.
+  Qed.
+
+  (* the context node does not come twice in a row in prev :: l *)
+  Fixpoint adjb (self prev : N) (l : list N) : bool :=
+    match l with
+    | [] => false
+    | x :: r => (eqb prev self && eqb x self) || adjb self x r
+    end.
+  Definition adjacent_self (self : N) (l : list N) : bool :=
+    match l with [] => false | x :: r => adjb self x r end.
+
+  (* whatever the probe would say: an iteration in which the context node never follows itself is
+     returned as it is *)
+  Lemma loop_no_adjacent node_set self s l :
+    yields s l false -> forall fuel acc probed, length l < fuel ->
+    match acc with last :: _ => adjb self last l | [] => adjacent_self self l end = false ->
+    match_all_loop next eqb node_set fuel self s acc probed = WOk (rev acc ++ l).
+  Proof.
+    intros Hy. remember false as b eqn:Eb.
+    induction Hy as [s H|s H|s n s' l b H Hy IH]; intros fuel acc probed Hf Hadj; subst;
+      try discriminate; (destruct fuel as [|f]; [simpl in Hf; lia|]); simpl; rewrite H.
+    - rewrite app_nil_r; reflexivity.
+    - assert (Hc : negb probed && eqb n self
+                   && match acc with last :: _ => eqb last self | [] => false end = false
+                   /\ adjb self n l = false).
+      { destruct acc as [|last acc']; simpl in Hadj.
+        - split; [apply andb_false_r|exact Hadj].
+        - apply orb_false_elim in Hadj as [H1 H2]. split; [|exact H2].
+          destruct (negb probed); simpl; [|reflexivity].
+          rewrite andb_comm. exact H1. }
+      destruct Hc as [-> Hn].
+      rewrite (IH eq_refl f (n :: acc) probed) by (simpl in Hf; try lia; exact Hn).
+      simpl. rewrite <- app_assoc. reflexivity.
+  Qed.
+
+  (* N11 repaired: on the never ending iteration of a non node-set query the repaired MatchAll
+     stops at the second step and returns the context node, once *)
+  Lemma loop_non_node_set_true self s fuel :
+    eqb self self = true -> loops_on self s -> 2 <= fuel ->
+    match_all_loop next eqb false fuel self s [] false = WOk [self].
+  Proof.
+    intros Hrefl (P & Hs & Hstep) Hf.
+    destruct fuel as [|[|f]]; try lia.
+    destruct (Hstep s Hs) as (s1 & E1 & H1). destruct (Hstep s1 H1) as (s2 & E2 & H2).
+    simpl. rewrite E1. simpl. rewrite andb_false_r. rewrite E2. simpl. rewrite Hrefl. reflexivity.
+  Qed.
+
+  (* ---- the statements ---- *)
+  (* MatchAll on a node-set query returns the engine's iteration: every node, in that order,
+     nothing removed, nothing merged - and only that. *)
+  Theorem match_all_is_the_iteration self s l :
+    (exists fuel, match_all next eqb true false self (Some s) fuel = WOk l) <-> yields s l false.
+  Proof.
+    unfold match_all. split.
+    - intros [fuel H]. rewrite loop_node_set in H.
+      apply old_loop_ok_inv in H as (l' & Hy & ->). exact Hy.
+    - intros Hy. exists (Datatypes.S (length l)).
+      rewrite loop_node_set, (old_loop_yields _ _ _ Hy) by lia. reflexivity.
+  Qed.
+
+  Theorem match_all_enough_fuel self s l b fuel :
     yields s l b -> length l < fuel ->
-    match_all next false self (Some s) fuel = if b then WErr EQueryFailed else WOk l.
-  Proof. intros Hy Hf. unfold match_all. rewrite (match_all_loop_yields _ _ _ Hy) by assumption. reflexivity. Qed.
+    match_all next eqb true false self (Some s) fuel = if b then WErr EQueryFailed else WOk l.
+  Proof.
+    intros Hy Hf. unfold match_all. rewrite loop_node_set, (old_loop_yields _ _ _ Hy) by assumption.
+    reflexivity.
+  Qed.
+
+  (* ... and so it does for ANY query (node-set or not) whose iteration ends and never has the
+     context node right after itself - in particular a non node-set query whose value is false,
+     whose iteration is empty *)
+  Theorem match_all_no_adjacent_self node_set self s l fuel :
+    yields s l false -> adjacent_self self l = false -> length l < fuel ->
+    match_all next eqb node_set false self (Some s) fuel = WOk l.
+  Proof.
+    intros Hy Ha Hf. unfold match_all.
+    rewrite (loop_no_adjacent node_set self s l Hy fuel [] false Hf Ha). reflexivity.
+  Qed.
+
+  Theorem match_all_non_node_set_true self s fuel :
+    eqb self self = true -> loops_on self s -> 2 <= fuel ->
+    match_all next eqb false false self (Some s) fuel = WOk [self].
+  Proof. intros. unfold match_all. apply loop_non_node_set_true; assumption. Qed.
+
+  (* before the repair the same call never returned *)
+  Theorem match_all_old_never_returns self s :
+    loops_on self s -> forall fuel, match_all_old next false self (Some s) fuel = WOutOfFuel.
+  Proof. intros H fuel. unfold match_all_old. apply old_loop_never_returns with (self := self). exact H. Qed.
 
   Definition classify (l : list N) : wres N :=
     match l with [] => WErr ENoMatch | [x] => WOk x | _ :: _ :: _ => WErr EMoreThanExpected end.
@@ -925,7 +1023,7 @@ Section WrapperProofs.
 
   (* the two entry points answer one question *)
   Theorem match_single_consistent_with_match_all self s fuel l :
-    match_all next false self (Some s) fuel = WOk l ->
+    match_all next eqb true false self (Some s) fuel = WOk l ->
     match_single next false self (Some s) = classify l.
   Proof.
     intros H. apply match_single_classification.
@@ -936,17 +1034,45 @@ Section WrapperProofs.
     yields s l b -> match_any next s = match l with [] => false | _ :: _ => true end.
   Proof. intros Hy. unfold match_any. inversion Hy; subst; rewrite H; reflexivity. Qed.
 
-  Theorem match_dot self c fuel :
-    match_all next true self c fuel = WOk [self] /\ match_single next true self c = WOk self.
+  (* a non node-set query whose value is true: MatchSingle says "more than expected", MatchAny true *)
+  Theorem non_node_set_true_single_any self s :
+    loops_on self s ->
+    match_single next false self (Some s) = WErr EMoreThanExpected /\ match_any next s = true.
+  Proof.
+    intros (P & Hs & Hstep).
+    destruct (Hstep s Hs) as (s1 & E1 & H1). destruct (Hstep s1 H1) as (s2 & E2 & H2).
+    unfold match_single, match_any. rewrite E1, E2. auto.
+  Qed.
+
+  Theorem match_dot node_set self c fuel :
+    match_all next eqb node_set true self c fuel = WOk [self] /\ match_single next true self c = WOk self.
   Proof. split; reflexivity. Qed.
 End WrapperProofs.
 
 (* a scripted iterator yields its script *)
-Lemma script_yields panics l : yields (list N) N (script_next panics) l l panics.
+Lemma script_yields tl self l :
+  tl <> TLoopSelf ->
+  yields (list N) N (script_next tl self) l l (match tl with TPanic => true | _ => false end).
 Proof.
-  induction l as [|n l IH].
-  - destruct panics; [apply y_panic|apply y_end]; reflexivity.
+  intros Ht. induction l as [|n l IH].
+  - destruct tl; [apply y_end|apply y_panic|congruence]; reflexivity.
   - eapply y_next; [reflexivity|exact IH].
+Qed.
+
+Lemma script_loops self : loops_on (list N) N (script_next TLoopSelf self) self [].
+Proof.
+  exists (fun s => s = []). split; [reflexivity|]. intros s0 ->. exists []. split; reflexivity.
+Qed.
+
+(* the unbounded loop of the old MatchAll, on a concrete iterator (MatchAll(n, "1 = 1")) *)
+Lemma match_all_old_refuted :
+  exists (next : list N -> istep (list N) N) (self : N) (s : list N),
+    (forall fuel, match_all_old next false self (Some s) fuel = WOutOfFuel) /\
+    match_all next N.eqb false false self (Some s) 2 = WOk [self].
+Proof.
+  exists (script_next TLoopSelf 0%N), 0%N, []. split.
+  - apply match_all_old_never_returns. apply script_loops.
+  - reflexivity.
 Qed.
 
 (* ---- the model's tables and statement shapes are the ones extracted from navigator.go ---------- *)
